@@ -39,7 +39,8 @@ structure EntryFacts (t : Table) (op : Op) (t' : Table) (r : Res) : Prop where
   /-- every path after the step is (the image of) a path that was there and was not overwritten,
       or the path an accepted `insert` created -/
   mem : ∀ f n x, x ∈ t'.entries f n →
-      (∃ x0 ∈ t.entries f n, x = op.flip x0 ∧ ¬ op.replaces f n x0) ∨ (op.inserts f n x ∧ r ≠ .limit)
+      (∃ x0 ∈ t.entries f n, x = op.flip x0 ∧ (r = .limit ∨ ¬ op.replaces f n x0)) ∨
+      (op.inserts f n x ∧ r ≠ .limit)
   /-- a limit rejection changes no path -/
   limit : r = .limit → ∀ f n, t'.entries f n = t.entries f n
 
